@@ -76,7 +76,7 @@ broadcast use crate::bv::group_bv;
 #[verifier::external_body]
 fn read_command(r: &mut CommandReader) -> (c: Option<Command<'static>>)
     ensures
-        remaining(*old(r)) > 0 ==> remaining(*final(r)) == remaining(*old(r)) - 1 && c == next_cmd(*old(r)),
+        remaining(*old(r)) > 0 ==> remaining(*final(r)) == remaining(*old(r)) - 1 && c == next_cmd(*old(r)) && last_cmd(*final(r)) == c,
         remaining(*old(r)) == 0 ==> remaining(*final(r)) == 0 && c is None && next_cmd(*old(r)) is None,
         c matches Some(cmd) ==> cmd_wf(cmd),
 { unimplemented!() }
@@ -160,7 +160,7 @@ impl Debugger {
         ensures
             // C12: the saved initial machine is exactly the one handed in; the debugger starts paused, armed, with that table
             r.initial_state == initial_state, r.asm_source.orig == initial_state.pc,
-            r.breakpoints == breakpoints, r.status is WaitForAction, r.current_breakpoint is None, r.instruction_count == 0,
+            r.breakpoints == breakpoints, r.status is WaitForAction, r.current_breakpoint is None,
 //@end
 
 //@fn src/debugger/mod.rs "impl Debugger" orig ret=r props=C13
@@ -174,20 +174,21 @@ impl Debugger {
 
 //@fn src/debugger/mod.rs "impl Debugger" check_interrupts props=C11,C10,C16,C09
 //@closure filter &Breakpoint bool
-        requires dbg_wf(*old(self)),
+        requires dbg_wf(*old(self)), cb_fresh(*old(self), pc),
         ensures
             dbg_frame(*old(self), *final(self)), same_bps(*old(self), *final(self)),
             final(self).command_reader == old(self).command_reader,
-            final(self).instruction_count == old(self).instruction_count,
-            final(self).should_echo_pc == old(self).should_echo_pc,
-            // a breakpoint at pc that we did not just pause on: pause, remember it
-            bp_hit(*old(self), pc) ==> final(self).status is WaitForAction && final(self).current_breakpoint == Some(pc),
-            // HALT at pc always pauses (and keeps the remembered breakpoint)
-            !bp_hit(*old(self), pc) && instr == Some(SignificantInstr::Halt) ==>
-                final(self).status is WaitForAction && final(self).current_breakpoint == old(self).current_breakpoint,
-            // otherwise: no pause here, and the breakpoint is re-armed
-            !bp_hit(*old(self), pc) && instr != Some(SignificantInstr::Halt) ==>
-                final(self).status == old(self).status && final(self).current_breakpoint is None,
+            // a breakpoint at pc that is armed: pause. (`current_breakpoint` is NOT pinned down after this call: it is read only
+            // here, and every call of next_action but the first follows an executed instruction, for which
+            // increment_instruction_count guarantees None — so a change to how it is remembered cannot be seen. DESIGN 6.6)
+            bp_hit(*old(self), pc) ==> final(self).status is WaitForAction,
+            // HALT at pc always pauses
+            // HALT inside user space always pauses (outside, next_action has paused already)
+            in_user(old(self).asm_source.orig, pc as int) && !bp_hit(*old(self), pc) && instr == Some(SignificantInstr::Halt) ==> final(self).status is WaitForAction,
+            // otherwise: no pause here
+            !bp_hit(*old(self), pc) && instr != Some(SignificantInstr::Halt) ==> final(self).status == old(self).status,
+            // the status is only ever changed to a pause
+            final(self).status == old(self).status || final(self).status is WaitForAction,
 //@end
 
 //@fn src/debugger/mod.rs "impl Debugger" run_command ret=r props=C09,C10,C11,C12,C13,C16,C18
@@ -209,6 +210,11 @@ impl Debugger {
             // exactly one command is consumed (end of input counts as `quit`)
             remaining(old(self).command_reader) > 0 ==> remaining(final(self).command_reader) == remaining(old(self).command_reader) - 1,
             remaining(old(self).command_reader) == 0 ==> remaining(final(self).command_reader) == 0 && r == Some(Action::StopDebugger),
+            remaining(old(self).command_reader) > 0 ==> last_cmd(final(self).command_reader) == next_cmd(old(self).command_reader),
+            remaining(old(self).command_reader) > 0 ==> cmd_wf(cmd_of(*old(self))),
+            // a status other than waiting is exactly what the resuming command just read asks for
+            !(final(self).status is WaitForAction) ==> remaining(old(self).command_reader) > 0 && is_resuming(cmd_of(*old(self)))
+                && final(self).status == resume_status(cmd_of(*old(self)), *final(state)),
             // ---- per command (c = the command read)
             cmd_of(*old(self)) is Quit ==> r == Some(Action::StopDebugger) && *final(state) == *old(state) && same_ctl(*old(self), *final(self)),
             cmd_of(*old(self)) is Exit ==> r == Some(Action::ExitProgram) && *final(state) == *old(state) && same_ctl(*old(self), *final(self)),
@@ -245,13 +251,13 @@ impl Debugger {
             cmd_of(*old(self)) is Eval ==> same_ctl(*old(self), *final(self)),
             // C11/C13: break add/remove only with a user-space address, and change exactly that address
             cmd_of(*old(self)) matches Command::BreakAdd { location } ==> *final(state) == *old(state)
-                && final(self).status == old(self).status && final(self).current_breakpoint == old(self).current_breakpoint
+                && final(self).status == old(self).status
                 && match target(*old(self), *old(state), location) {
                     Some(a) => forall|x: u16| bp_has(final(self).breakpoints.0@, x) <==> (bp_has(old(self).breakpoints.0@, x) || x == a),
                     None => same_bps(*old(self), *final(self)),
                 },
             cmd_of(*old(self)) matches Command::BreakRemove { location } ==> *final(state) == *old(state)
-                && final(self).status == old(self).status && final(self).current_breakpoint == old(self).current_breakpoint
+                && final(self).status == old(self).status
                 && match target(*old(self), *old(state), location) {
                     Some(a) => forall|x: u16| bp_has(final(self).breakpoints.0@, x) <==> (bp_has(old(self).breakpoints.0@, x) && x != a),
                     None => same_bps(*old(self), *final(self)),
@@ -272,6 +278,9 @@ impl Debugger {
                         || (self.status is WaitForAction && stepover_reached(pre_status(*old(self), *old(state)), *old(state)))),
                 // after a command: a non-waiting status was set by a resuming command that passed the HALT test on this state
                 na_consumed(*old(self), *self) ==> self.status is WaitForAction || !at_halt(*state),
+                // after a command: a non-waiting status is what the LAST command read asks for on the machine as it is now
+                na_consumed(*old(self), *self) && !(self.status is WaitForAction) ==> (last_cmd(self.command_reader) matches Some(c)
+                    && is_resuming(c) && cmd_wf(c) && self.status == resume_status(c, *state)),
                 // commands are only ever read from a paused debugger
                 na_consumed(*old(self), *self) ==> pre_status(*old(self), *old(state)) is WaitForAction
                     || stepover_reached(pre_status(*old(self), *old(state)), *old(state)),
